@@ -403,14 +403,47 @@ def targets(ctx):
         "googlex/thing.proto": 'syntax = "proto3";\npackage googlex;\nmessage Thing { int32 a = 1; }\n',
         "shop.proto": 'syntax = "proto3";\npackage shop;\nimport "google/type/money.proto";\nimport "google/rpc/status.proto";\nimport "googlex/thing.proto";\nmessage Order { google.type.Money price = 1; google.rpc.Status status = 2; repeated google.type.Day days = 3; googlex.Thing thing = 4; }\n',
     }
+    SVC_NAMES = ["Svc", "lower_service", "HTTPService", "_3DSecure", "__2fa", "none", "True", "class", "import", "Type", "x", "_", "a__b", "v2API", "Stub", "Base"]
     LABELS = ["single", "repeated", "optional", "map", "map_msg", "oneof", "message", "repeated_msg"]
 
     def matrix_cases():
         for lab in LABELS:
             yield {"matrix": lab}
         yield {"matrix": "google_packages"}
+        yield {"matrix": "service_names"}
+
+    def service_files():
+        body = "message Q { int32 a = 1; }\n" + "".join(
+            f"service {n} {{ rpc Get (Q) returns (Q); rpc {m} (stream Q) returns (stream Q); }}\n" for n, m in zip(SVC_NAMES, SVC_NAMES[1:] + SVC_NAMES[:1]))
+        return {"svcnames.proto": 'syntax = "proto3";\npackage svcnames;\n' + body}
 
     def matrix_ev(case):
+        if case["matrix"] == "service_names":
+            # every service has an importable <Name>Stub / <Name>Base pair whose route table names the proto service
+            from betterproto.grpc.grpclib_server import ServiceBase
+
+            c = gen.compile_files(service_files(), tag="c03m_")
+            try:
+                fails = []
+                found = validate_by_name(c)
+                for cl, where, d in found:
+                    fails.append(Failure(cl, f"matrix|service_names|{cl}|{where}", d))
+                if not found:
+                    mod = c.modules["svcnames"]
+                    routes = set()
+                    for obj in vars(mod).values():
+                        if isinstance(obj, type) and issubclass(obj, ServiceBase) and obj is not ServiceBase and obj.__module__ == mod.__name__:
+                            try:
+                                routes |= set(obj().__mapping__())
+                            except Exception as e:  # noqa: BLE001
+                                fails.append(Failure("service_mapping_raises", f"matrix|service_names|service_mapping_raises|{type(e).__name__}", f"{obj.__name__}: {e}"))
+                    for n, m in zip(SVC_NAMES, SVC_NAMES[1:] + SVC_NAMES[:1]):
+                        for me in ("Get", m):
+                            if f"/svcnames.{n}/{me}" not in routes:
+                                fails.append(Failure("service_route_missing", f"matrix|service_names|service_route_missing|{n}", f"/svcnames.{n}/{me} not served by any generated base class"))
+                return Eval(fails, weight=len(SVC_NAMES), nontrivial_count=len(SVC_NAMES), labels=["matrix:service_names"])
+            finally:
+                c.cleanup()
         files = GOOGLE_PKGS if case["matrix"] == "google_packages" else matrix_files(case["matrix"])
         c = gen.compile_files(files, tag="c03m_")
         try:
